@@ -32,6 +32,7 @@ def main():
             mod.replay(ctx, json.load(open(a.replay)))
         else:
             mod.run(ctx)
+        ctx.run_finding_demos()
     except core.Broken as B:
         ctx.broken.append(B)
         ctx.log(f'{B.kind.upper()} BROKEN: {B.what}\n{B.detail}')
